@@ -135,8 +135,9 @@ def _imputer(run, prog, cls):
 
 
 def _is_mode_guard(g):
-    return True if g[0] == "cmp" and g[2][0] == "field0" and g[3][0] == "const" else \
-        (g[0] == "not" and _is_mode_guard(g[1])) or g[0] == "field0"
+    from .boolalg import literal
+    a, _ = literal(g)
+    return a[0] == "field0" or (a[0] == "cmp" and a[2][0] == "field0" and a[3][0] == "const")
 
 
 def _selects_source(extra):
@@ -170,19 +171,21 @@ def _values(run, prog, cls, s, fq, db, cond, subset, x, n, mctx, mev):
         sf = ("field0", storage_fields[0])
         # strategy selection
         joint = None
-        if len(cond) == 1:
-            c = cond[0]
-            pos = c if c[0] != "not" else c[1]
-            if pos[0] == "cmp" and pos[3] == ("const", "joint") and pos[2][0] == "field0":
-                if pos[1] == "==":
-                    joint = c[0] != "not"
-                elif pos[1] in ("is", "is not"):
-                    run.fail("VALUE", f"{name}.strategy", f"{s.path}:{mev.line}", fq, f"strategy test {ir.show_nl(pos)}",
-                             "the sampling strategy is compared by identity (`is`): an equal string that is not the "
-                             "interned literal selects the wrong sampler")
-                    return
-                elif pos[1] == "!=":
-                    joint = c[0] == "not"
+        from .boolalg import literal
+        strategy_lits = []
+        for c in cond:
+            a, pol = literal(c)
+            if a[0] == "cmp" and ("const", "joint") in (a[2], a[3]) and any(x[0] == "field0" for x in (a[2], a[3])):
+                strategy_lits.append((a, pol))
+        if len(strategy_lits) == 1:
+            a, pol = strategy_lits[0]
+            if a[1] == "==":
+                joint = pol
+            elif a[1] == "is":
+                run.fail("VALUE", f"{name}.strategy", f"{s.path}:{mev.line}", fq, f"strategy test {ir.show_nl(a)}",
+                         "the sampling strategy is compared by identity (`is`): an equal string that is not the "
+                         "interned literal selects the wrong sampler")
+                return
         if joint is None:
             run.fail("VALUE", f"{name}.strategy", f"{s.path}:{mev.line}", fq,
                      f"strategy selection {' & '.join(ir.show_nl(c) for c in cond) or 'none'}",
